@@ -363,7 +363,7 @@ def check_C01(work):
     st = trace_check(work, out, jobs, mons, tag="c01", conform=True)
     st = add_pool(work, out, st, ["DirValid", "HandleContentOK", "Immutable"])
     st = add_replay(work, out, st, mons, Q(40, 600), names=["RPplain", "RPmaint", "RPnodirs", "RPshard", "RPstack", "RPpromote"])
-    design = design_runs(work, out, Q(["MCplain2q", "MCshard1", "MCstack2"], ["MCplain2q", "MCplain2", "MCshard1", "MCshard2", "MCstack2", "MCstack3"]))
+    design = design_runs(work, out, Q(["MCplain2q", "MCshard1", "MCstack2"], ["MCplain2q", "MCplain2", "MCplain3", "MCshard1", "MCshard2", "MCstack2", "MCstack3"]))
     cov = coverage_mc(st, design,
                       "schedules of 2-3 participants explored by preemption-bounded DFS / seeded random at system-call granularity; "
                       "every snapshot of every step and every returned handle judged by DirValid/HandleContentOK/Immutable",
@@ -1425,7 +1425,7 @@ def check_C04(work):
     conf = conformance(work, tfiles, tag="c04k")
     for d in conf["drifts"][:5]:
         print("MODEL-DRIFT job=%s run=%s seq=%s at %s: %s" % (d["job"], d["run"], d.get("seq"), d.get("pcl"), d.get("why")), flush=True)
-    design = design_runs(work, out, Q(["MCplain2q", "MCplain2"], ["MCplain2q", "MCplain2", "MCadv"]))
+    design = design_runs(work, out, Q(["MCplain2q", "MCplain2", "MCplain3"], ["MCplain2q", "MCplain2", "MCplain3", "MCadv", "MCfault2"]))
     _, nev = count_runs(tfiles)
     cov = dict(states=sum(d["states"] for d in design) + sum(r["states"] for r in res) + conf["states"],
                transitions=sum(d["transitions"] for d in design) + nev,
